@@ -136,7 +136,7 @@ def run_case(case, wctx):
     e = dict(os.environ)
     e.update({"PATH": f"{d / 'bin'}:{e['PATH']}", "VP_SCHED_STATE": str(d / "state.json"),
               "VP_ARGV_LOG": str(d / "argv.log"), "VP_BODY_LOG": str(d / "body.log")})
-    wd = 240
+    wd = 240 if wctx.tier == "quick" else 600
     watchdog = False
     try:
         p = subprocess.run([env.PY, "-m", "vp.c28_runner", str(d / "spec.json"), str(d / "out.json")],
@@ -184,7 +184,7 @@ def run_case(case, wctx):
         if out.get("value") != EXPECT[case["wf"]](case["x"]):
             bad.append({"kind": "wrong-value", "got": out.get("value")})
     if got == "livelock":
-        # the submitter spins in its workflow loop: no scheduler command for 12 s, never back in the event loop
+        # the submitter spins in its workflow loop: no scheduler command while it burnt 6 CPU-seconds, never back in the event loop
         res["counters"]["livelocks_observed"] = 1
         outs = []
         tools = [c[0] for c in calls]
